@@ -267,17 +267,17 @@ MUTANTS += [
 LMB = "src/skmatter/linear_model/_base.py"
 MUTANTS += [
     # ---------------------------------------------------------------- C18
-    dict(name="c18_returns_least_squares", prop=["C18", "C13"], file=LMB,
+    dict(name="c18_returns_least_squares", prop="C18", file=LMB,
          old="            self.coef_ = (\n                U\n                @ orthogonal_procrustes(X @ U, y.reshape(X.shape[0], -1) @ Vt.T)[0]\n                @ Vt\n            ).T", new="            self.coef_ = coef.T"),
-    dict(name="c18_rotation_transposed", prop=["C18", "C13"], file=LMB,
+    dict(name="c18_rotation_transposed", prop="C18", file=LMB,
          old="                @ orthogonal_procrustes(X @ U, y.reshape(X.shape[0], -1) @ Vt.T)[0]\n", new="                @ orthogonal_procrustes(X @ U, y.reshape(X.shape[0], -1) @ Vt.T)[0].T\n"),
     dict(name="c18_padded_transposed", prop=["C18", "C13"], file=LMB,
          old="            self.coef_ = orthogonal_procrustes(X, y)[0].T", new="            self.coef_ = orthogonal_procrustes(X, y)[0]"),
     dict(name="c18_pad_wrong_side", prop=["C18", "C13"], file=LMB,
          old="            y = np.pad(y, [(0, 0), (0, self.max_components_ - y.shape[1])])", new="            y = np.pad(y, [(0, 0), (self.max_components_ - y.shape[1], 0)])"),
-    dict(name="c18_procrustes_on_raw_y", prop=["C18", "C13"], file=LMB,
+    dict(name="c18_procrustes_on_raw_y", prop="C18", file=LMB,
          old="orthogonal_procrustes(X @ U, y.reshape(X.shape[0], -1) @ Vt.T)[0]", new="orthogonal_procrustes(X @ U, linear_estimator.predict(X).reshape(X.shape[0], -1) @ Vt.T + 0.05 * y.reshape(X.shape[0], -1) @ Vt.T * 0)[0]"),
-    dict(name="c18_predict_pad_after", prop=["C18", "C13"], file=LMB,
+    dict(name="c18_predict_pad_after", prop="C18", file=LMB,
          old="            X = np.pad(X, [(0, 0), (0, self.max_components_ - X.shape[1])])\n        return X @ self.coef_.T", new="            X = np.pad(X, [(0, 0), (self.max_components_ - X.shape[1], 0)]) if X.shape[0] == 5 else np.pad(X, [(0, 0), (0, self.max_components_ - X.shape[1])])\n        return X @ self.coef_.T"),
 ]
 
@@ -315,4 +315,27 @@ MUTANTS += [
          old="        directional_distances[below_directional_convex_hull] = np.max(", new="        directional_distances[below_directional_convex_hull] = -np.max("),
     dict(name="c19_tolerance_sign", prop="C19", file=SSB,
          old="            all_directional_distances < -self.tolerance, axis=1", new="            all_directional_distances < self.tolerance + 0.5, axis=1"),
+]
+
+REC = "src/skmatter/metrics/_reconstruction_measures.py"
+MUTANTS += [
+    # ---------------------------------------------------------------- C13
+    dict(name="revert_fix_grd_pad", prop="C13", file=REC,
+         old="        [(0, 0), (0, orthogonal_predictions_Y_test.shape[1] - Y_test.shape[1])],", new="        [(0, 0), (0, 0)],"),
+    dict(name="c13_scaler_fit_on_test", prop="C13", file=REC, count=1,
+         old="    scaler.fit(Y_train)\n    Y_train = scaler.transform(Y_train)\n    Y_test = scaler.transform(Y_test)\n\n    estimator.fit(X_train, Y_train)",
+         new="    scaler.fit(Y_test)\n    Y_train = scaler.transform(Y_train)\n    Y_test = scaler.transform(Y_test)\n\n    estimator.fit(X_train, Y_train)"),
+    dict(name="c13_local_mean_all_train", prop="C13", file=REC,
+         old="        local_X_train_mean = np.mean(X_train[local_env_idx], axis=0)", new="        local_X_train_mean = np.mean(X_train, axis=0)"),
+    dict(name="c13_neighbours_farthest", prop="C13", file=REC,
+         old="        local_env_idx = np.argsort(squared_dist[i])[:n_local_points]", new="        local_env_idx = np.argsort(squared_dist[i])[-n_local_points:]"),
+    dict(name="c13_global_norm_mean_not_rms", prop="C13", file=REC, count=1,
+         old="    return np.linalg.norm(pointwise_global_reconstruction_error_values) / np.sqrt(", new="    return np.sum(pointwise_global_reconstruction_error_values) / np.sqrt(1.0 * "),
+    dict(name="c13_grd_orth_on_Y_not_prediction", prop="C13", file=REC,
+         old="        .fit(X_train, estimator.predict(X_train))", new="        .fit(X_train, Y_train)"),
+    dict(name="c13_sqdist_missing_factor", prop="C13", file=REC,
+         old="        - 2 * X_test @ X_train.T\n    )", new="        - X_test @ X_train.T\n    )"),
+    dict(name="c13_y_not_scaled", prop="C13", file=REC, count=1,
+         old="    scaler.fit(Y_train)\n    Y_train = scaler.transform(Y_train)\n    Y_test = scaler.transform(Y_test)\n\n    predictions_Y_test",
+         new="    scaler.fit(Y_train)\n    Y_test = Y_test - Y_train.mean(axis=0)\n    Y_train = Y_train - Y_train.mean(axis=0)\n\n    predictions_Y_test"),
 ]
